@@ -40,7 +40,8 @@ def peel(n, transparent=TRANSPARENT):
             n = n["e"]
         elif k == "un" and n["op"] == "Deref":
             n = n["e"]
-        elif k == "block" and not n["st"] and "tail" in n:
+        elif k == "block" and "tail" in n:
+            # the value of a block is the value of its tail expression (also: an absorbed helper call, engine/py/inline.py)
             n = n["tail"]
         elif k == "mcall" and n["m"] in transparent and len(n["a"]) == 0:
             n = n["r"]
@@ -186,12 +187,16 @@ def guards(fn, node):
             if cur is anc["body"]:
                 out.append({"cond": m["e"], "pol": None, "how": "arm", "pat": anc["pat"], "node": m, "arm": anc,
                             "guard": anc.get("guard")})
+        elif k == "let" and anc.get("els") is cur and "init" in anc:
+            # `let PAT = init else { cur }`: the else block runs when the pattern does not match
+            out.append({"cond": {"k": "letx", "pat": anc["pat"], "init": anc["init"], "s": anc.get("s")}, "pol": False, "how": "let-else", "node": anc})
         elif k == "block":
             # early exits among earlier statements
             seq = list(anc["st"]) + ([anc["tail"]] if "tail" in anc else [])
             for s in seq:
                 if s is cur:
                     break
+                # (a preceding `let PAT = init else { diverge }` is not listed, like `let x = match init { PAT => .., _ => diverge }`)
                 if s.get("k") == "if" and "e" not in s and diverges(s["t"]):
                     out.append({"cond": s["c"], "pol": False, "how": "early-exit", "node": s})
                 elif s.get("k") == "if" and "e" in s and diverges(s["e"]) and not diverges(s["t"]):
@@ -231,7 +236,15 @@ def guard_atoms(fn, node):
 
 
 def enclosing_loops(fn, node):
-    return [a for a in fn.ancestors(node) if a.get("k") in ("for", "while", "loop")]
+    """Loops whose body (or `while` condition) contains node, innermost first. The iterated expression of a `for` is evaluated
+    once, before the loop: it is not inside it."""
+    out = []
+    cur = node
+    for a in fn.ancestors(node):
+        if a.get("k") in ("for", "while", "loop") and not (a.get("k") == "for" and a.get("iter") is cur):
+            out.append(a)
+        cur = a
+    return out
 
 
 def enclosing_closure(fn, node):
@@ -321,6 +334,14 @@ def origin(fn, n, depth=4):
             o = dict(o, via_let=info["name"])
         return o
     return dict(info, binding=b)
+
+
+def resolve(fn, n, transparent=TRANSPARENT):
+    """Expression n with hoisted single-assignment lets followed (`let d = f(x); g(d)` -> `f(x)`); n (peeled) otherwise."""
+    o = origin(fn, n)
+    if o.get("from") == "expr":
+        return peel(o["expr"], transparent)
+    return peel(n, transparent)
 
 
 def loop_var_of(fn, n):
